@@ -188,6 +188,41 @@ type Map struct {
 	keys  []Value
 	vals  []Value
 	ktype types.Type
+	// index of entries whose key is a concrete integer or string (fast path)
+	cint map[uint64]int
+	cstr map[string]int
+	nsym int // number of entries with a non-concrete or non-indexable key
+}
+
+func concreteKey(k Value) (ik uint64, sk string, kind int) {
+	switch x := k.(type) {
+	case *Term:
+		if x.IsConst() {
+			return x.val, "", 1
+		}
+	case Str:
+		if x.IsConcrete() {
+			return 0, x.Concrete(), 2
+		}
+	}
+	return 0, "", 0
+}
+
+func (mp *Map) reindex() {
+	mp.cint = map[uint64]int{}
+	mp.cstr = map[string]int{}
+	mp.nsym = 0
+	for i, k := range mp.keys {
+		ik, sk, kind := concreteKey(k)
+		switch kind {
+		case 1:
+			mp.cint[ik] = i
+		case 2:
+			mp.cstr[sk] = i
+		default:
+			mp.nsym++
+		}
+	}
 }
 
 type Iface struct {
